@@ -13,6 +13,7 @@ import zlib
 
 from ..gen import tlvals as V
 from ..translate import tl_table as TT
+from ..translate import arith2
 
 SPEC = dict(
     manifest=dict(
@@ -24,15 +25,23 @@ SPEC = dict(
              "byte/text strings of every length): the modelled serialiser emits exactly the TL encoding, and the modelled parser returns the "
              "same value and consumes exactly the serialised bytes, with auto-deserialisation off and - when no bytes/string content starts "
              "with a registered id - on; the framing lemma holds for every string length; BlockIdExt byte/dict conversions are lossless and "
-             "equal ids hash equally. The hand-written model is tied to the code by differential testing on every covered constructor.",
+             "equal ids hash equally. The hand-written model is tied to the code by differential testing on every covered constructor. The "
+             "framing arithmetic of bytes/string fields and the vector-length guard are additionally re-translated from tl/generator.py on every "
+             "run (Generated/TlFraming.lean): the `<= 253` test, the 1-byte and FE+3-byte little-endian headers, the zero padding to a multiple "
+             "of 4 on serialising (c14_src_frame_tests), and on parsing the FE test, the declared length, the header size and the skip over content "
+             "and padding (c14_src_read_tests) are proved for ALL lengths / inputs / offsets, the hand model's frame / readFrame are proved to be "
+             "exactly their composition (c14_src_model_frame, c14_src_model_read), and the guard `length > len(data) - i` over Python ints is proved "
+             "to be the model's test on the remaining input (c14_src_vector_guard).",
         level_note='Trusted: Lean kernel (propext, Classical.choice, Quot.sound), Spec/Tl.lean as the TL format, the table translator '
                    '(harness/translate/tl_table.py), the hand model Model/Tl.lean (tied by sampled correspondence, not by proof), Python '
                    'str.encode/decode = strict UTF-8, bytes.fromhex/hex inverse, tuple hash. Fuel = recursion depth: theorems hold for every '
                    'sufficiently large depth budget. The general auto-deserialise statement (result = normalize v) is not proved, only the '
                    'identity case under the stated side condition. Vector elements must occupy >= 1 byte (side condition in the spec).',
-        technique='Lean 4 proof (hand model generic in a schema table regenerated from source) + differential correspondence with the library',
+        technique='Lean 4 proof (hand model generic in a schema table regenerated from source) + differential correspondence with the library '
+                  '+ source-regenerated framing arithmetic',
     ),
-    translators=[('tl schemas->Generated/TlTable.lean', TT.regenerate)],
+    translators=[('tl schemas->Generated/TlTable.lean', TT.regenerate),
+                 ('tl/generator.py bytes framing + vector guard->Generated/TlFraming.lean', arith2.regenerator('TlFraming'))],
     design_ref='DESIGN.md §6 C14',
     rule='for every covered constructor >= 3 type-directed random canonical values (boundary-biased ints, strings/bytes at lengths '
          '{0..4,252..257,65535 (thorough 2^24-1)} plus a sweep of every length 0..300, nested/polymorphic objects to depth 3, vectors of '
@@ -42,6 +51,7 @@ SPEC = dict(
          'non-trivial = the constructor has at least one field',
     trusted_base=['harness/translate/tl_table.py (table generator, replays the type tests of serialize_field/deserialize)',
                   'Spec/Tl.lean is the TL binary format', 'Model/Tl.lean mirrors generator.py/block.py by hand',
+                  'harness/translate/pyarith.py + arith.py/arith2.py and lean/TonVerif/PyBytes.lean (Python statements / bytes operations -> Lean) for the c14_src_* theorems',
                   'harness/gen/tlvals.py: generators, independent encoder, token syntax'],
     assumptions=['correspondence is sampled differential testing', 'str.encode/decode are strict UTF-8 and inverse on valid strings',
                  'bytes.fromhex(x.hex()) == x', "Python's hash of a tuple is a function of the tuple's value"],
@@ -392,10 +402,23 @@ def string_sweep(ctx, W, B):
             check_value(ctx, W, B, c, v, f'string-sweep len={n}', model=(n <= 300 or n == 65535))
 
 
+def src_search(ctx, W, B):
+    """Search mode only: logs the points where the regenerated framing arithmetic (Generated/TlFraming.lean) differs from the model's,
+    then runs the string sweep (every length 0..300 and the 2^16 boundary, bytes / string / vectors of them: independent encoder and
+    round trip on the library) before anything else.  True = a concrete failing input was found."""
+    arith2.search_points(ctx, ['TlFraming'])
+    n0 = len(ctx.failures)
+    string_sweep(ctx, W, B)
+    B.flush()
+    return len(ctx.failures) > n0
+
+
 def run(ctx):
     W = world()
     B = Batch(ctx)
     rng = ctx.rng
+    if ctx.search and src_search(ctx, W, B):
+        return
     cov = [c for c in W.ctors if W.covered(c)]
     ctx.count('constructors_total', len(W.ctors))
     ctx.count('constructors_supported_field_types', sum(1 for c in W.ctors if W.supported(c)))
